@@ -114,6 +114,19 @@
 #define K2 'f'
 #define R2 0
 #define ONLY_END_OF_FILE 1
+#elif CAT == 7    /* a directory with two sub-directories: the first one ends while the outer one continues with a LONGER path */
+#define P0 "a/"
+#define N0 NULL
+#define K0 'd'
+#define R0 -1
+#define P1 "a/b/"
+#define N1 NULL
+#define K1 'd'
+#define R1 0
+#define P2 "a/c/"
+#define N2 NULL
+#define K2 'd'
+#define R2 0
 #endif
 static char cp0[] = P0, cp1[] = P1, cp2[] = P2;
 static char cn0[] = "f", cn1[] = "f", cn2[] = "g";
